@@ -64,6 +64,11 @@ WHAT = {
     "handler-ran-though-policy-denies": "the service handler ran although the policy does not grant the caller the method's operation class on the graph named in the request",
     "denied-elem-forwarded": "a bulk element for a graph the caller may not write reached the handler",
     "allowed-elem-dropped": "bulk elements the caller may write did not reach the handler (filtering is not element by element)",
+    "elem-forwarded-without-enforce": "a bulk element for a graph the caller may not write reached the handler: Access.Enforce was never asked about it",
+    "elem-forwarded-after-denied-enforce": "a bulk element reached the handler although Access.Enforce refused it",
+    "elem-forwarded-enforce-wrong-graph": "a bulk element for a graph the caller may not write reached the handler: Access.Enforce was asked about another graph",
+    "elem-forwarded-enforce-wrong-op": "a bulk element for a graph the caller may not write reached the handler: Access.Enforce was asked about another operation class than write",
+    "elem-forwarded-enforce-wrong-user": "a bulk element for a graph the caller may not write reached the handler: Access.Enforce was asked about another user",
     "refused-with-no-accounts": "the method is refused although no accounts are configured",
     "denied-call-replied-ok": "a denied call was answered with success",
     "call-never-answered": "a denied call is never answered (no authentication/permission error reaches the client)",
@@ -157,39 +162,25 @@ def validate_chunk(ctx, idx, blocks):
     return vs
 
 
-def canary(ctx, blocks):
-    """Binding self-test: three recorded calls are corrupted; TLC has to name each corruption."""
-    denied = granted = opened = None
-    for cfg, calls in blocks:
-        for call in calls:
-            kinds = [e["e"] for e in call["ev"]]
-            code = call["ev"][-1]["code"]
-            if cfg["mode"] == "casbin" and cfg["spied"] and call["cred"] == "right" and call["user"] != "root":
-                if denied is None and code == "PermissionDenied" and "HandlerRan" not in kinds:
-                    denied = (cfg, call)
-                if granted is None and code == "OK" and kinds == ["Validate", "Enforce", "HandlerRan", "Reply"] \
-                        and len(cfg["policy"]) > 0:
-                    granted = (cfg, call)
-            if cfg["mode"] == "open" and opened is None and code == "OK" and "HandlerRan" in kinds and not call["elems"]:
-                opened = (cfg, call)
-    if not (denied and granted and opened):
-        raise Inconclusive("canary: no suitable recorded calls (denied=%s granted=%s open=%s)" % (bool(denied), bool(granted), bool(opened)))
+def canary(ctx):
+    """Binding self-test on synthetic records: TLC has to name three corruptions and accept the clean call."""
+    def ev(*es):
+        return [dict(e, k=k + 1) for k, e in enumerate(es)]
 
-    def mut(pair, c, f):
-        cfg, call = pair
-        call = json.loads(json.dumps(call))
-        call["c"] = c
-        call["ev"] = f(call["ev"])
-        for k, e in enumerate(call["ev"]):
-            e["k"] = k + 1
-        return (cfg, [call])
+    def call(c, evs):
+        return dict(c=c, m="Query/GetVertex", user="alice", cred="right", g="g1", elems=[], ev=evs)
 
-    ran = dict(e="HandlerRan", k=0)
+    val = dict(e="Validate", ok=True, u="alice")
+    ran = dict(e="HandlerRan")
+    deny = dict(mode="casbin", spied=True, policy=[])
+    grant = dict(mode="casbin", spied=True, policy=[["alice", "g1", "read"]])
+    opn = dict(mode="open", spied=True, policy=[])
+    enf = lambda ok: dict(e="Enforce", ok=ok, u="alice", g="g1", op="read")
     cb = [
-        mut(denied, 1, lambda ev: ev[:-1] + [ran, dict(ev[-1], code="OK")]),                 # handler ran after a refusal
-        mut(granted, 2, lambda ev: [e for e in ev if e["e"] != "Enforce"]),                   # consultation missing
-        mut(opened, 3, lambda ev: [e for e in ev if e["e"] != "HandlerRan"][:-1] + [dict(ev[-1], code="Unknown")]),
-        mut(granted, 4, lambda ev: ev),                                                       # untouched: accepted
+        (deny, [call(1, ev(val, enf(False), ran, dict(e="Reply", code="OK")))]),           # handler ran after a refusal
+        (grant, [call(2, ev(val, ran, dict(e="Reply", code="OK")))]),                       # consultation missing
+        (opn, [call(3, ev(dict(e="Validate", ok=True, u=""), dict(e="Reply", code="Unknown")))]),   # refused though open
+        (grant, [call(4, ev(val, enf(True), ran, dict(e="Reply", code="OK")))]),            # clean
     ]
     text, ncalls, nev = build_trace(cb)
     rep = run_tlc_trace(ctx, text, False, "canary")
@@ -317,7 +308,7 @@ def run(ctx):
     chunks = [c for c in chunks if c]
     with ThreadPoolExecutor(max_workers=nchunks + 1) as ex:
         futs = [ex.submit(validate_chunk, ctx, k, ch) for k, ch in enumerate(chunks)]
-        cfut = ex.submit(canary, ctx, blocks)
+        cfut = ex.submit(canary, ctx)
         verdicts = {}
         for f in futs:
             verdicts.update(f.result())
@@ -351,11 +342,26 @@ def run(ctx):
             for x in causes:
                 soft.setdefault(x, {}).setdefault(call["m"], 0)
                 soft[x][call["m"]] += 1
+    final = []
     for cfg, call, causes, v, hc, cause in rejected:
-        nrej += 1
         if cause == hc and (call["m"], hc) in rootcause:
             alts = rootcause[(call["m"], hc)]
             cause = max(sorted(alts), key=lambda x: alts[x])
+        final.append((cfg, call, causes, v, cause))
+    # a cause shared by three or more methods of one RPC kind is one defect of that interceptor path
+    shared = {}
+    for cfg, call, causes, v, cause in final:
+        shared.setdefault((methods[call["m"]]["kind"], cause), set()).add(call["m"])
+    for cfg, call, causes, v, cause in final:
+        nrej += 1
+        kind = methods[call["m"]]["kind"]
+        group = sorted(shared[(kind, cause)])
+        if len(group) >= 3:
+            ctx.diverge("auth %s-methods %s" % (kind, cause), "%s: %s" % (", ".join(group), WHAT.get(cause, cause)),
+                        dict(config=dict(mode=cfg["mode"], policy=cfg["policy"], spied=cfg["spied"]),
+                             call={k: call[k] for k in ("t", "m", "user", "cred", "credv", "g", "elems")},
+                             events=call["ev"], causes=causes, failed_invariants=sorted(v["inv"])))
+            continue
         extra = " (in-process gateway client)" if cause == "call-never-answered" and call["t"] == "gateway" else ""
         ctx.diverge("auth %s %s" % (call["m"], cause), "%s: %s%s" % (call["m"], WHAT.get(cause, cause), extra),
                     dict(config=dict(mode=cfg["mode"], policy=cfg["policy"], spied=cfg["spied"]),
